@@ -435,8 +435,7 @@ fn validate_fields(input: &Struct, data_type_attrs: &DataTypeAttrs, data_type_at
                         continue;
                     }
 
-                    let field_attr = if *fallible { field.attrs.applicable_field_attr(kind, true, &data_type_attr.ty) } else { None }
-                        .or_else(|| field.attrs.applicable_field_attr(kind, false, &data_type_attr.ty));
+                    let field_attr = field.attrs.applicable_field_attr(kind, *fallible, &data_type_attr.ty);
                     if let Some(field_attr) = field_attr {
                         if kind.is_from() {
                             if field_attr.attr.member.is_none() && field_attr.attr.action.is_none() {
@@ -516,8 +515,7 @@ fn validate_variant_fields(input: &Variant, data_type_attrs: &DataTypeAttrs, _ty
                         continue;
                     }
 
-                    let field_attr = if data_type_attr.fallible { field.attrs.applicable_field_attr(&kind, true, &data_type_attr.core.ty) } else { None }
-                        .or_else(|| field.attrs.applicable_field_attr(&kind, false, &data_type_attr.core.ty));
+                    let field_attr = field.attrs.applicable_field_attr(&kind, data_type_attr.fallible, &data_type_attr.core.ty);
                     if let Some(field_attr) = field_attr {
                         if kind == Kind::FromOwned || kind == Kind::FromRef {
                             if field_attr.attr.member.is_none() && field_attr.attr.action.is_none() {
